@@ -245,7 +245,8 @@ def rule_prov_simplify(crate):
                 short = c.split("::")[-1]
                 b = crate.mir.get(c) or {}
                 f = crate.files[b["file"]] if b else ""
-                if short in ok_callers or short == name:
+                nested_in_allowed = any(("::%s::" % a) in c for a in ok_callers)  # `fn helper` declared inside an allowed caller
+                if short in ok_callers or short == name or nested_in_allowed:
                     out.ok("who-may-call:%s<-%s" % (name, short), f, b.get("line", 0), "display path")
                 else:
                     out.violation("who-may-call:%s<-%s" % (name, short), f, b.get("line", 0), "%s is called from %s, outside the display path result/print/interpolation → Vm::simplify_quantity" % (name, c))
@@ -302,41 +303,45 @@ def rule_prov_assert(crate):
         out.ok("assert_eq/2:conversion", *crate.loc(fe, two[0]), detail="the first argument is converted to the unit of the second")
     else:
         out.violation("assert_eq/2:conversion", f, fe["line"], "assert_eq(a, b) does not convert a to b's unit before comparing")
-    # equality comparison between converted lhs and rhs: the VALUE of the `if let Ok(converted) = a.convert_to(..)`
-    # block (what decides success for quantities) must be a `==` between the converted first and the second argument
-    # (a `==` somewhere else in the function, e.g. the non-quantity branch, does not count)
+    # equality comparison between converted lhs and rhs: inside the scope in which the successfully converted first
+    # argument is bound (`if let Ok(converted) = …` / `match … { Ok(converted) => … }` / let-else) there must be a
+    # `==` between that value and the second argument whose result is USED (bound, returned or part of the block's
+    # value) — a `==` elsewhere (e.g. in the non-quantity branch) does not count, and neither does a decision taken
+    # from the difference
     eq_ok = False
-    why_eq = "no `if let Ok(converted) = a.convert_to(b.unit())` block found"
+    why_eq = "no scope binding the result of `a.convert_to(b.unit())` found"
     if ok2:
         conv = two[0]
+        scopes = []  # (binding ids, scope node)
         for n in walk(fe["body"]):
-            if n.get("k") != "If":
-                continue
-            c = peel(n["cond"])
-            if c.get("k") != "Let" or not any(x is conv for x in walk(c["init"])):
-                continue
-            conv_ids = {q["id"] for q in walk(c["pat"]) if q.get("k") == "Binding"}
-            blk = peel(n["then"])
-            val = blk.get("tail") if blk.get("k") == "Block" else blk
-            val = peel(val) if val is not None else {}
-            hops = 0
-            while val.get("k") == "Path" and val["res"].get("r") == "local" and val["res"]["id"] in inits and hops < 4:
-                val = peel(inits[val["res"]["id"]])
-                hops += 1
+            k = n.get("k")
+            if k == "If":
+                c = peel(n["cond"])
+                if c.get("k") == "Let" and any(x is conv for x in walk(c["init"])):
+                    scopes.append(({q["id"] for q in walk(c["pat"]) if q.get("k") == "Binding"}, n["then"]))
+            elif k == "Match" and any(x is conv for x in walk(n["scrut"])):
+                for a in n["arms"]:
+                    if any(p.get("variant") == "Ok" for p in walk(a["pat"])):
+                        scopes.append(({q["id"] for q in walk(a["pat"]) if q.get("k") == "Binding"}, a["body"]))
+            elif k == "Let" and n.get("init") is not None and any(x is conv for x in walk(n["init"])) and any(p.get("variant") == "Ok" for p in walk(n["pat"])):
+                scopes.append(({q["id"] for q in walk(n["pat"]) if q.get("k") == "Binding"}, fe["body"]))
+        for (conv_ids, scope) in scopes:
             ids2 = dict(ids)
             for ci in conv_ids:
                 ids2[ci] = "converted"
-            if val.get("k") == "Binary" and val.get("op") == "==":
-                lp = {ids2[i] for i in operand_prov(val["l"], inits, ids2)}
-                rp = {ids2[i] for i in operand_prov(val["r"], inits, ids2)}
-                if ("converted" in lp and "rhs" in rp) or ("converted" in rp and "rhs" in lp):
-                    eq_ok = True
-                else:
-                    why_eq = "the deciding `==` does not compare the converted first argument with the second"
+            found = False
+            for val in walk(scope):
+                if val.get("k") == "Binary" and val.get("op") == "==":
+                    lp = {ids2[i] for i in operand_prov(val["l"], inits, ids2)}
+                    rp = {ids2[i] for i in operand_prov(val["r"], inits, ids2)}
+                    if ("converted" in lp and "rhs" in rp) or ("converted" in rp and "rhs" in lp):
+                        found = True
+            if found:
+                eq_ok = True
             else:
-                why_eq = "the value of the quantity branch is not a `==` between the converted first argument and the second (it is a %s%s): assert_eq(a, b) then no longer agrees with `a == b` (e.g. for infinities, whose difference is NaN)" % (val.get("k"), " " + val.get("name", "") if val.get("k") == "MethodCall" else "")
+                why_eq = "where the converted first argument is available, success is not decided by `converted == b` (no such comparison): assert_eq(a, b) then no longer agrees with `a == b` (e.g. for infinities, whose difference is NaN)"
     if eq_ok:
-        out.ok("assert_eq/2:equality", f, fe["line"], "success for quantities is the value of `converted == rhs`")
+        out.ok("assert_eq/2:equality", f, fe["line"], "success for quantities is decided by `converted == rhs`")
     else:
         out.violation("assert_eq/2:equality", f, fe["line"], "assert_eq/2: " + why_eq)
     # 3-argument form: a zero tolerance is polymorphic (`assert_eq(1 m, 1 m, 0)` type-checks) and carries the scalar
